@@ -80,8 +80,12 @@ pub fn gen(seed: u64, _idx: u64, tier: Tier) -> Scenario {
     let n = match tier { Tier::Quick => r.range(12, 60), Tier::Thorough => r.range(12, 150) };
     let mut waiter: Option<usize> = None;
     let mut belief: Vec<i64> = vec![0; nc];
+    // transient outcomes of the server's reads / writes on a client's socket (EINTR, empty-handed or partial transfers)
+    let syscall_faults = r.chance(1, 4);
+    sc.knobs.insert("syscall_faults".into(), syscall_faults as i64);
     for _ in 0..n {
         let c = r.below(nc as u64) as usize;
+        if syscall_faults && r.chance(1, 5) { sc.steps.push(transient_fault(&mut r, nc)); }
         if Some(c) == waiter { continue; }
         match r.weighted(&[12, 3, 26, 10, 12, 6, 2, 2, 5, 10, 3, 5]) {
             0 => { let d = *r.pick(&dbs); belief[c] = d; sc.steps.push(Step::Send { c, a: vec![b("SELECT"), b(&format!("{}", d))], split: vec![] }); }
@@ -193,6 +197,7 @@ pub fn exec(sc: &Scenario) -> Outcome {
     h.sim.preempt_permille = sc.knob("preempt", 0) as u32;
     if let Err(e) = h.boot(&sc.cfg, "a") { return Outcome { verdict: "harness".into(), note: e, ..Default::default() }; }
     let mut m = Multi::new(h, "C18");
+    m.strict_stall = sc.knob("syscall_faults", 0) != 0;
     m.select_in_exec = true;
     let mut seen = 0usize;
     let mut tainted_exec = false;
@@ -216,6 +221,7 @@ pub fn exec(sc: &Scenario) -> Outcome {
                 m.send(*c, &args);
             }
             Step::Turns { n } => m.turns(*n),
+            Step::Arm { fop, conn: Some(c), nth, action, .. } => m.arm(*c, *fop, *nth, *action),
             Step::Close { c, .. } => { m.close(*c); m.turns(2); }
             Step::Adv { ns } => m.h.sim.advance(*ns),
             _ => {}
@@ -247,7 +253,7 @@ pub fn exec(sc: &Scenario) -> Outcome {
 pub static DEF: CheckDef = CheckDef {
     id: "C18", level: "exploration", gen, exec,
     nontrivial: |o| o.counters.get("cmds").copied().unwrap_or(0) >= 12,
-    rule: "one run = 2-4 connections moving among 2-4 of the 16 databases (usually incl. 0) and running every command family (strings, keys, lists, sets incl. multi-key algebra and SMOVE/RPOPLPUSH/RENAME/MGET/MSET, hashes, sorted sets, streams, DBSIZE/KEYS) on the same key names in each of them through every execution path: directly, queued in MULTI/EXEC (sometimes with a queued SELECT), through EVAL and EVALSHA of a pass-through script, and as BLPOP/BRPOP completed later while another connection first pushes to the same name in a different database and then in the waiter's; SELECT of invalid indexes (16, -1, non-numeric, overflow, padded); FLUSHDB / FLUSHALL (directly, in MULTI/EXEC, from a script); reconnects (fresh connections start in 0). The simulator derives the execution order from the transport seam and feeds it to a 16-database reference model with per-connection selection; oracle: every reply equals the model's for the database selected on that connection at that time, the canonical dump of all 16 databases equals the model after every turn (a script may only differ from the direct command inside its own database), a waiter is served only from its own database, and - independently of the model - no reply carries a value whose embedded tag names another database than the connection's; non-trivial = at least 12 commands",
+    rule: "one run = 2-4 connections moving among 2-4 of the 16 databases (usually incl. 0) and running every command family (strings, keys, lists, sets incl. multi-key algebra and SMOVE/RPOPLPUSH/RENAME/MGET/MSET, hashes, sorted sets, streams, DBSIZE/KEYS) on the same key names in each of them through every execution path: directly, queued in MULTI/EXEC (sometimes with a queued SELECT), through EVAL and EVALSHA of a pass-through script, and as BLPOP/BRPOP completed later while another connection first pushes to the same name in a different database and then in the waiter's; SELECT of invalid indexes (16, -1, non-numeric, overflow, padded); FLUSHDB / FLUSHALL (directly, in MULTI/EXEC, from a script); reconnects (fresh connections start in 0). The simulator derives the execution order from the transport seam and feeds it to a 16-database reference model with per-connection selection; oracle: every reply equals the model's for the database selected on that connection at that time, the canonical dump of all 16 databases equals the model after every turn (a script may only differ from the direct command inside its own database), a waiter is served only from its own database, and - independently of the model - no reply carries a value whose embedded tag names another database than the connection's; in a quarter to a third of the runs single reads / writes of the server on a client's socket are made to fail with EINTR, to come back empty-handed (EAGAIN, reads only) or to transfer only 1..100 bytes (fault injection at the libc boundary) - transient outcomes that must not change any reply or the dataset; non-trivial = at least 12 commands",
     quick_budget_s: 40.0, thorough_budget_s: 900.0, quick_max_runs: 1_000_000, thorough_max_runs: 100_000_000, exhaustive: false, exhaustive_after: |_| 0,
     real: REAL_WHOLE_SERVER, stub: STUB_WHOLE_SERVER, assumptions: ASSUME_COMMON,
 };
